@@ -108,23 +108,30 @@ def plans(ctx, m):
     noblank = allvc - {"empty", "blank", "ph_unset", "bad"}
     orders, cms = set(m.classes["order"]), set(m.classes["cm"])
     P = []
+    ctxfeat = {"r.pull", "r.pull.path", "r.pull.auth_token", "r.deliver", "pull_api", "pull_api.auth_token"}   # occupied by the base contexts
     if ctx.quick:
         P.append(dict(name="val-pull", nv=3, w=6, consts=consts(m, Scope=set(m.ids) - m.under("r.deliver") - {"r.deliver_concurrency"},
                                                             VC1=allvc, VC2={"bare", "blank", "kwq", "ph_env"})))
-        P.append(dict(name="val-deliver", nv=3, w=3, consts=consts(m, Scope=deliver, VC1=allvc, VC2={"bare", "blank", "kwq", "esc"},
-                                                               Bases={"deliver"})))
+        P.append(dict(name="val-deliver", nv=3, w=3, consts=consts(m, Scope=deliver | m.under("pull_api"), VC1=allvc,
+                                                               VC2={"bare", "blank", "kwq", "esc"}, Bases={"deliver"})))
+        P.append(dict(name="val-none", nv=2, w=2, consts=consts(m, Scope=ctxfeat, VC1=allvc, VC2=allvc2, Bases={"none"})))
+        P.append(dict(name="val-vars", nv=2, w=2, consts=consts(m, VC1={"vars"}, VC2={"vars", "bare"}, Bases={"pullv", "deliverv"}, SpMode="default")))
         P.append(dict(name="pairs-route", nv=2, w=6, consts=consts(m, Scope=ingress_side, VC1={"bare", "blank"}, K=2)))
         P.append(dict(name="pairs-deliver", nv=2, w=4, consts=consts(m, Scope=m.under("r.deliver", "secrets") | {"r.deliver_concurrency"},
                                                                  VC1={"bare", "quoted"}, K=2, Bases={"deliver"})))
         P.append(dict(name="triples-auth", nv=2, w=4, consts=consts(m, Scope=auth, VC1={"bare"}, K=3, NMax=2)))
-        P.append(dict(name="channels", nv=2, w=4, consts=consts(m, Scope={"r.publish", "r.application"}, K=1, MinR=0, MaxR=3, ChForms=ALL_CHFORMS,
-                                                            ErrSet={"none", "dup_path"}, Bases={"auto"}, SpMode="default", Orders={"shuffle"})))
+        P.append(dict(name="channels", nv=2, w=4, consts=consts(m, Scope={"r.publish", "r.application", "ingress"}, K=1, MinR=0, MaxR=3,
+                                                            ChForms=ALL_CHFORMS, ErrSet={"none", "dup_path"}, Bases={"auto"}, SpMode="default",
+                                                            Orders={"shuffle"})))
         P.append(dict(name="paths", nv=2, w=2, consts=consts(m, Scope={"r.auth_basic"}, K=1, MinR=1, MaxR=2, ChForms=ALL_CHFORMS,
                                                          PqSet=set(m.classes["pq"]), Bases={"auto"}, SpMode="default")))
-        P.append(dict(name="layout", nv=2, w=4, consts=consts(m, Scope=tops, K=2, MinR=1, MaxR=2, ChForms={("bare", "bare"), ("outbound", "single")},
+        P.append(dict(name="layout", nv=2, w=3, consts=consts(m, Scope=tops, K=1, MinR=2, MaxR=2, ChForms={("bare", "bare"), ("outbound", "single")},
                                                           Bases={"auto"}, Orders=orders, Cms=cms, SpMode="default")))
+        P.append(dict(name="layout2", nv=2, w=3, consts=consts(m, Scope=tops, K=2, MinR=2, MaxR=2, ChForms={("bare", "bare"), ("internal", "wrapper")},
+                                                           Bases={"auto"}, Orders={"shuffle", "reverse", "interleave"}, Cms={"all", "none"},
+                                                           SpMode="default")))
         for k, (vc1, base) in enumerate(((allvc, {"auto"}), (noblank, {"auto"}), (noblank, {"none", "pull"}))):
-            P.append(dict(name="sim%d" % k, nv=2, w=1, sim=(250, 10 + 4 * k),
+            P.append(dict(name="sim%d" % k, nv=2, w=1, sim=(200, 10 + 4 * k),
                           consts=consts(m, VC1=vc1, VC2=allvc2 & vc1 | {"bare"}, MinR=1, MaxR=3, ChForms=ALL_CHFORMS, PqSet=set(m.classes["pq"]),
                                         Bases=base, Orders=orders, Cms=cms)))
     else:
@@ -132,13 +139,19 @@ def plans(ctx, m):
                                                             VC1=allvc, VC2=allvc2)))
         P.append(dict(name="val-deliver", nv=4, w=4, consts=consts(m, Scope=deliver, VC1=allvc, VC2=allvc2, Bases={"deliver"})))
         P.append(dict(name="val-none", nv=2, w=4, consts=consts(m, VC1=allvc, VC2={"bare", "blank"}, Bases={"none"})))
+        P.append(dict(name="val-vars", nv=2, w=4, consts=consts(m, VC1={"vars", "ph_file", "bare"}, VC2={"vars", "bare"}, K=2, NMax=1,
+                                                            Scope=ingress_side | m.under("vars", "defaults.egress", "pull_api", "secrets"),
+                                                            Bases={"pullv"}, SpMode="default")))
+        P.append(dict(name="val-vars-d", nv=2, w=4, consts=consts(m, VC1={"vars", "bare"}, VC2={"vars", "bare"}, K=2, Scope=deliver | m.under("vars"),
+                                                              Bases={"deliverv"})))
+        P.append(dict(name="val-ctx", nv=3, w=2, consts=consts(m, Scope=ctxfeat, VC1=allvc, VC2=allvc2, K=2, Bases={"none"})))
         P.append(dict(name="pairs-route", nv=2, w=10, consts=consts(m, Scope=ingress_side, VC1={"bare", "quoted", "blank", "kw", "ph_env"}, K=2)))
         P.append(dict(name="pairs-deliver", nv=2, w=6, consts=consts(m, Scope=m.under("r.deliver", "secrets", "defaults.deliver") | {"r.deliver_concurrency"},
                                                                  VC1={"bare", "quoted", "blank"}, K=2, Bases={"deliver"})))
         P.append(dict(name="pairs-top", nv=2, w=8, consts=consts(m, Scope=top, VC1={"bare", "blank"}, K=2, NMax=1)))
         P.append(dict(name="triples-route", nv=2, w=10, consts=consts(m, Scope=ingress_side, VC1={"bare"}, K=3, NMax=1)))
         P.append(dict(name="triples-auth", nv=2, w=8, consts=consts(m, Scope=auth, VC1={"bare", "blank"}, K=3)))
-        P.append(dict(name="channels", nv=2, w=8, consts=consts(m, Scope={"r.publish", "r.application", "r.auth_basic"}, K=1, MinR=0, MaxR=3,
+        P.append(dict(name="channels", nv=2, w=8, consts=consts(m, Scope={"r.publish", "r.application", "r.auth_basic", "ingress"}, K=1, MinR=0, MaxR=3,
                                                             ChForms=ALL_CHFORMS, PqSet={"bare", "quoted"}, ErrSet={"none", "dup_path"},
                                                             Bases={"auto"}, SpMode="default", Orders={"shuffle", "canon"})))
         P.append(dict(name="paths", nv=2, w=4, consts=consts(m, Scope={"r.auth_basic", "r.publish"}, K=2, MinR=1, MaxR=2, ChForms=ALL_CHFORMS,
@@ -185,12 +198,17 @@ def run_gen(ctx, plan, seed):
             p = json.loads(json.loads('"' + mm.group(2) + '"'))
             f.write(json.dumps({"id": "%s-%06d" % (plan["name"], n), "tag": mm.group(1), "p": p, "nv": plan["nv"]}) + "\n")
             n += 1
+    tail_of_out = out[-3000:]
     del out
     empties = (len(c["Orders"]) * len(c["Cms"]) * len(c["ErrSet"]) * len(c["Bases"])) if c["MinR"] == 0 else 0
     if not sim and not (r["distinct"] - empties <= n <= r["distinct"]):
         raise vf.Infra("ConfigLangGen/%s: %d programs printed but %d distinct states (generator is not a tree)" % (plan["name"], n, r["distinct"]))
     if n == 0:
         raise vf.Infra("ConfigLangGen/%s generated no program" % plan["name"])
+    if sim:
+        mm = re.search(r"The number of states generated: (\d+)", tail_of_out)
+        if mm:
+            r["generated"] = r["distinct"] = int(mm.group(1))   # states visited by the random walks (not de-duplicated by TLC)
     st = {"name": "gen-" + plan["name"], "distinct": r["distinct"], "generated": r["generated"], "programs": n, "depth": r["depth"],
           "mode": "simulate" if sim else "exhaustive", "secs": round(time.time() - t0, 1)}
     return path, st
@@ -433,8 +451,8 @@ def run(ctx):
     if s["func_fields"]:
         ctx.assumptions.append("function-typed fields inside config.Compiled are not compared (%d met)" % s["func_fields"])
     if s["tag_ok"].get("valid/false", 0) or s["tag_ok"].get("invalid/true", 0):
-        ctx.notes.append("coverage tag of the model disagrees with Compile on %d programs (tag is accounting only)" % (
-            s["tag_ok"].get("valid/false", 0) + s["tag_ok"].get("invalid/true", 0)))
+        ctx.notes.append("coverage tag of the model disagrees with Compile on %d events (tag is accounting only); e.g. %s" % (
+            s["tag_ok"].get("valid/false", 0) + s["tag_ok"].get("invalid/true", 0), json.dumps(s.get("tag_mismatch_samples", [])[:2])[:900]))
     non_vacuity(ctx, m, s, ctx.quick)
     ctx.assumptions += [
         "the oracle is differential on the real code (Compile before vs after Format); ConfigLang.tla generates programs and does not define what a Hookaidofile means",
